@@ -9,14 +9,14 @@ while read -r prop fams; do
   done
 done <<'L'
 C01 lifecycle
-C02 lifecycle batch
+C02 lifecycle batch config
 C03 flow
 C04 lifecycle flow batch
 C05 lifecycle flow
 C06 batch
 C07 batch
-C08 pool batch
-C09 batch
+C08 pool batch config
+C09 batch config
 C10 flow
 C11 batch
 C12 pool
@@ -27,6 +27,6 @@ C16 bind
 C17 lifecycle batch
 C18 lifecycle batch flow
 C19 config
-C20 lifecycle batch
+C20 lifecycle batch config
 L
 exit $bad
